@@ -172,6 +172,9 @@ structure TxIn where
   reference : String := ""
   metadata : Metadata := []
   accountMetadata : Map String Metadata := []
+  /-- `upsertTransactionAccounts` runs after the commit (transaction creation and import);
+      `false` for the revert path, which only calls `CommitTransaction` -/
+  upsertAccounts : Bool := true
   deriving Repr, Inhabited
 
 /-- Number the Go-computed moves (`seq` from the table's sequence) and attach the dates. -/
@@ -184,7 +187,7 @@ def toRows (seq0 txId : Nat) (ins eff : Int) : List Move → List MoveRow
 
 def Store.txRecs (st : Store) : List TxRec := st.txs.map (·.tx)
 
-/-- `CommitTransaction` + `upsertTransactionAccounts` on the abstract store (features
+/-- `CommitTransaction` (+ `upsertTransactionAccounts` when `t.upsertAccounts`) on the abstract store (features
     MOVES_HISTORY=ON, MOVES_HISTORY_POST_COMMIT_EFFECTIVE_VOLUMES=SYNC). -/
 def applyTx (st : Store) (t : TxIn) : Except Err Store :=
   let vu := volumeUpdates t.postings
@@ -203,7 +206,7 @@ def applyTx (st : Store) (t : TxIn) : Except Err Store :=
                                       insertedAt := t.insertedAt, reference := t.reference,
                                       metadata := t.metadata }, pcv := ret }]
           moves := insertMoves st.moves rows
-          accounts := accounts2
+          accounts := if t.upsertAccounts then accounts2 else st.accounts
           nextTxId := st.nextTxId + 1
           nextSeq := st.nextSeq + ms.length }
 
